@@ -157,13 +157,13 @@ structure GCtx.OK (G : GCtx) : Prop where
   pnames_mem : ∀ f ∈ G.pnames, ∃ p, G.xc.genv.lookup f = some (.proc p)
   low_global : ∀ pi ∈ G.procs, ∀ sp n a, G.lo ≤ sp → G.locOf pi sp n = some a → a < sp → n ∈ G.gnames
   gloc_ok : ∀ pi ∈ G.procs, ∀ sp, ∀ n ∈ G.gnames, G.locOf pi sp n = G.gloc n
-  gloc_lo : ∀ n a, G.gloc n = some a → a < G.lo
+  gloc_lo : ∀ n ∈ G.gnames, ∀ a, G.gloc n = some a → a < G.lo
   formal_loc : ∀ pi ∈ G.procs, ∀ sp k f, pi.p.formals[k]? = some f →
     G.locOf pi sp f.name = some (sp + G.S pi + pi.po + k)
   local_loc : ∀ pi ∈ G.procs, ∀ sp k d, pi.p.locals[k]? = some d →
     k < G.S pi ∧ G.locOf pi sp d.name = some (sp + G.S pi - 1 - k)
   noshadow : ∀ pi ∈ G.procs, ∀ n ∈ pi.lnames, G.xc.genv.lookup n = none
-  gloc_ge : ∀ n a, G.gloc n = some a → 2 ≤ a
+  gloc_ge : ∀ n ∈ G.gnames, ∀ a, G.gloc n = some a → 2 ≤ a
   gloc_some : ∀ n ∈ G.gnames, ∃ a, G.gloc n = some a
   const_ge : ∀ v l j k, (v, l) ∈ G.consts → G.env.ds[j]? = some (.label k l) → 2 ≤ G.env.addr j / 4
   code_lo : ∀ w, G.lo ≤ w → G.env.isCode w = false
